@@ -24,6 +24,7 @@ RULE = (
     "rule-generated transition or a stored period with a non-marker start; distinct by construction."
 )
 ASSUMPTIONS = ["the reference reads the format as documented in the reader/writer/field-id docstrings; it was cross-checked on all 17454 stored periods"]
+CASE_SCALE = {"zone_full": 100}  # one case = every interval of a zone through year 9999
 
 FILES = {
     "bundled": "pyoda_time/time_zones/Tzdb.nzd",
